@@ -63,6 +63,9 @@ impl<R: Read + Seek> ReadBox<&mut R> for MoofBox {
                     "moof box contains a box with a larger size than it",
                 ));
             }
+            if s == 0 {
+                return Err(Error::InvalidData("moof box contains a box with size 0"));
+            }
 
             match name {
                 BoxType::MfhdBox => {
